@@ -555,27 +555,46 @@ def kernel_misc(ctx: Ctx, out: Outcome, diagram) -> None:
         add("edgeBounds", [[list(map(str, pt)) for pt in pts], [list(map(str, l)) for l in elabels]],
             {"op": "edgeBounds", "points": [[q(x), q(y)] for x, y in pts], "labels": [[q(v) for v in l] for l in elabels]},
             [eb.pos.x, eb.pos.y, eb.pos.x + eb.size.x, eb.pos.y + eb.size.y], "rect")
-        # viewport over a mixed element list, some hidden
-        elems, rects = [], []
+        # viewport over a mixed element list, some hidden; the same list again translated so that its extent touches the
+        # coordinate axes (top-left corner on the origin / bottom-right corner on the origin): a running extreme of
+        # exactly 0 is a boundary of its own (falsy in Python)
+        spec = []
         for k in range(rng.randint(1, 6)):
             hidden = rng.random() < 0.25
             if rng.random() < 0.6:
                 r0 = rbox()
-                el = diagram.Box((fl(r0[0]), fl(r0[1])), (fl(r0[2]), fl(r0[3])), uuid=f"b{k}", hidden=hidden)
+                spec.append(("b", k, hidden, [fl(v) for v in r0]))
             else:
                 pp = [(small(), small()) for _ in range(rng.randint(2, 4))]
-                el = diagram.Edge([(fl(x), fl(y)) for x, y in pp], uuid=f"e{k}", hidden=hidden)
-            elems.append(el)
-            if not hidden:
-                b = el.bounds
-                rects.append([F(b.pos.x), F(b.pos.y), F(b.pos.x) + F(b.size.x), F(b.pos.y) + F(b.size.y)])
-        dg = diagram.Diagram("t")
-        for el in elems:
-            dg.add_element(el, False)
-        dg.calculate_viewport()
-        vp = dg.viewport
-        vis = [e for e in elems if not e.hidden]
-        if vis:
+                spec.append(("e", k, hidden, [(fl(x), fl(y)) for x, y in pp]))
+
+        def viewport_of(dx: float, dy: float):
+            elems, rects = [], []
+            for t_, k, hidden, g in spec:
+                if t_ == "b":
+                    el = diagram.Box((g[0] + dx, g[1] + dy), (g[2], g[3]), uuid=f"b{k}", hidden=hidden)
+                else:
+                    el = diagram.Edge([(x + dx, y + dy) for x, y in g], uuid=f"e{k}", hidden=hidden)
+                elems.append(el)
+                if not hidden:
+                    b = el.bounds
+                    rects.append([F(b.pos.x), F(b.pos.y), F(b.pos.x) + F(b.size.x), F(b.pos.y) + F(b.size.y)])
+            dg = diagram.Diagram("t")
+            for el in elems:
+                dg.add_element(el, False)
+            dg.calculate_viewport()
+            return elems, rects, dg.viewport
+
+        shifts = [(0.0, 0.0)]
+        _e0, _r0, vp0 = viewport_of(0.0, 0.0)
+        if _r0:
+            shifts += [(-vp0.pos.x, -vp0.pos.y), (-(vp0.pos.x + vp0.size.x), -(vp0.pos.y + vp0.size.y)), (-vp0.pos.x, -(vp0.pos.y + vp0.size.y))]
+        for si, (dx, dy) in enumerate(shifts):
+            elems, rects, vp = viewport_of(dx, dy)
+            vis = [e for e in elems if not e.hidden]
+            if not vis:
+                continue
+            out.hit("viewport:" + ("as-generated" if si == 0 else "extent-touches-axes"))
             for el in vis:
                 b = el.bounds
                 if not (vp.pos.x <= b.pos.x and vp.pos.y <= b.pos.y and b.pos.x + b.size.x <= vp.pos.x + vp.size.x and b.pos.y + b.size.y <= vp.pos.y + vp.size.y):
